@@ -206,6 +206,12 @@ func init() {
 				return OK()
 			case 1:
 				w := Generate(c.Tape, tierProfile(profC07, c.Tier))
+				if c.Tape.Choose(simrt.StGen, 5, 0) == 1 {
+					// a gathering component (which executes no task itself) between
+					// processes whose tasks need every slot
+					w = concatWF(c)
+					w.MaxTasks = 1 + c.Tape.Choose(simrt.StGen, 2, 0)
+				}
 				for i := range w.Nodes {
 					n := &w.Nodes[i]
 					if n.Kind == KProc {
